@@ -49,7 +49,8 @@ def theCtx : Ctx ByteArray :=
   { H := H
     encMan := fun sch p cs => ba (GoJson.manifest sch p cs)
     decBlob := fun _ => none
-    reload := fun _ c => c }
+    reload := fun _ c => c
+    nameOK := fun nm => GoJson.validUtf8 (nm.length + 1) nm }
 
 def theCfg : Cfg ByteArray :=
   { ctx := theCtx, ofBytes := ba, toBytes := fun b => b.toList,
@@ -275,6 +276,15 @@ def applyOp (toks : List String) (w : World ByteArray) : Except Err (World ByteA
     (match objs[n.toNat! % (max objs.length 1)]? with
      | some (d, _) => (.ok { w with store := w.store.filter (·.1 != d) }, #[s!"x {d}"])
      | none => (.error .other, #[]))
+  | ["moveproj", mode] =>
+    -- links are relative: with a cache outside the project, moving it to another depth breaks them
+    if mode == "rel" then (.ok w, #[]) else
+    let rec dangle : Nat → Node ByteArray → Node ByteArray
+      | 0, n => n
+      | _, .link (.obj _) => .link (.foreign false)
+      | f+1, .dir es => .dir (es.map fun (nm, n) => (nm, dangle f n))
+      | _, n => n
+    (.ok { w with ws := dangle 64 w.ws }, #[])
   | ["wipecache"] => (.ok { w with store := [] }, #[])
   | "clone" :: keep =>
     let ws := keep.foldl (fun (ws : Node ByteArray) d => (setPath ws (Path.comps (unhex d)) (.dir [])).getD ws) (.dir [])
